@@ -187,6 +187,8 @@ struct NameCase {
     dirs: Vec<DirSpec>,
     boundary: bool,
     pre: Option<Vec<u8>>,
+    /// the boundary directory holds an unrelated file (otherwise it is empty apart from the path to the resource)
+    boundary_has_file: bool,
     kind: Kind,
     writes: Vec<Vec<u8>>,
     second: Option<(Kind, bool)>,
@@ -196,14 +198,14 @@ struct NameCase {
 
 fn gen_naming(t: &mut Tape) -> NameCase {
     let name = gen_name(t);
-    let boundary = t.chance(150);
-    let pre = if t.chance(140) { Some(t.string_of(b"old content\n\x00\xff", 0, 12)) } else { None };
-    let ndirs = t.weighted(&[4, 3, 2, 1]);
+    let boundary = t.chance(180);
+    let pre = if t.chance(110) { Some(t.string_of(b"old content\n\x00\xff", 0, 12)) } else { None };
+    let ndirs = t.weighted(&[2, 3, 3, 2]);
     let mut dirs = Vec::new();
     let mut exists = true;
     for i in 0..ndirs {
         // a resource that exists implies that its directories exist
-        if boundary && pre.is_none() && exists && t.chance(120) {
+        if boundary && pre.is_none() && exists && t.chance(150) {
             exists = false;
         }
         let name = if t.chance(48) { part(t, 2) } else { format!("d{i}").into_bytes() };
@@ -227,7 +229,9 @@ fn gen_naming(t: &mut Tape) -> NameCase {
         Kind::Marker => *t.pick(&[End::Drop, End::Drop, End::RefusedCommitThenDrop]),
     };
     let reacquire = t.chance(64);
+    let boundary_has_file = t.bool();
     NameCase {
+        boundary_has_file,
         name,
         dirs,
         boundary,
@@ -265,7 +269,9 @@ fn run_naming(nc: &NameCase, c: &mut Case) {
     let mut pre = Tree::new();
     pre.insert(b"outside.txt".to_vec(), Some(b"outside".to_vec()));
     pre.insert(b"bnd".to_vec(), None);
-    pre.insert(b"bnd/keep.txt".to_vec(), Some(b"keep".to_vec()));
+    if nc.boundary_has_file {
+        pre.insert(b"bnd/keep.txt".to_vec(), Some(b"keep".to_vec()));
+    }
     let mut rel_dir = b"bnd".to_vec();
     let mut optional = Vec::new(); // pre-existing empty directories on the way to the resource
     let mut created = Vec::new();
@@ -1173,7 +1179,7 @@ pub fn main() {
     ck.assume("pre-existing EMPTY directories between the resource and the boundary may or may not survive a rollback (AutoRemove::TempfileAndEmptyParentDirectoriesUntil documents that empty containing directories are removed); everything else in the tree is compared exactly");
     ck.assume("races: an acquisition may fail with an io error when another holder's rollback removes the directory underneath it (not an exclusivity violation); schedules are sampled, not enumerated; `interleavings` enumerates orders of whole API calls only");
 
-    ck.sub("naming", SubCfg::new(4000, 100_000).max_len(128), |t, c| {
+    ck.sub("naming", SubCfg::new(6000, 150_000).max_len(128), |t, c| {
         let nc = gen_naming(t);
         let (stem, ext) = split_ext(&nc.name);
         let non_utf8_ext = ext.map_or(false, |e| std::str::from_utf8(e).is_err());
@@ -1207,7 +1213,7 @@ pub fn main() {
         run_naming(&nc, c);
     });
 
-    ck.sub("interleavings", SubCfg::new(600, 20_000).max_len(64), |t, c| {
+    ck.sub("interleavings", SubCfg::new(1200, 30_000).max_len(64), |t, c| {
         let nested = t.chance(150);
         let initial = !nested && t.bool();
         let mut names = vec![race_name(t)];
@@ -1237,7 +1243,7 @@ pub fn main() {
         }
     });
 
-    ck.sub("race-threads", SubCfg::new(300, 8_000).max_len(200).threads(4).max_shrink(40), |t, c| {
+    ck.sub("race-threads", SubCfg::new(1200, 30_000).max_len(200).threads(4).max_shrink(40), |t, c| {
         let plan = gen_race(t, false);
         c.key(&plan);
         c.label_if(plan.nested, "nested-with-cleanup");
@@ -1246,7 +1252,7 @@ pub fn main() {
         run_race(&plan, &[], false, c);
     });
 
-    ck.sub("race-procs", SubCfg::new(60, 2_000).max_len(120).threads(3).max_shrink(20), |t, c| {
+    ck.sub("race-procs", SubCfg::new(240, 6_000).max_len(120).threads(3).max_shrink(20), |t, c| {
         // the workers decode the same plan from the same tape
         let mut t2 = Tape::new(t.rest());
         let plan = gen_race(&mut t2, true);
